@@ -92,6 +92,54 @@ def run(chk):
     cand_ = [x for x in set(cs) if isinstance(x, float) and 0 < x < 1 and x not in (0.025, 0.5)]
     chk.ob("R-CAVDP", c + "[gate]", "gate literal 0.025 (g) and 9.81 in the function", 0.025 in cs and 9.81 in cs,
            derived="literals %s" % sorted(set(cs)), loc=r.fi.loc(), inconclusive=(0.025 not in cs and not cand_) or (9.81 not in cs and 0.025 in cs and partly))
+    # a window whose peak is EXACTLY 0.025 g reaches the gate: the gate tests are evaluated at that value (constant folding of the located test
+    # expressions with the peak set to the literal) and the weight chosen there must be 1
+    def _at_gate(test):
+        names = {n_.id for n_ in ast.walk(test) if isinstance(n_, ast.Name)}
+        if len(names) != 1 or not any(isinstance(n_, ast.Constant) and n_.value == 0.025 for n_ in ast.walk(test)) or \
+                any(isinstance(n_, (ast.Call, ast.Attribute, ast.Subscript)) for n_ in ast.walk(test)):
+            return None
+        try:
+            return bool(eval(compile(ast.Expression(body=test), "<gate>", "eval"), {"__builtins__": {}}, {next(iter(names)): 0.025}))
+        except Exception:
+            return None
+
+    def _const01(stmts):
+        for st_ in stmts:
+            if isinstance(st_, ast.Assign) and len(st_.targets) == 1 and isinstance(st_.targets[0], ast.Name) and isinstance(st_.value, ast.Constant) and \
+                    st_.value.value in (0, 1) and not isinstance(st_.value.value, bool):
+                return st_.value.value
+        return None
+    gate_h = []
+    for n_ in ast.walk(r.fi.node):
+        if isinstance(n_, ast.IfExp):
+            b_ = _at_gate(n_.test)
+            if b_ is not None:
+                v_ = n_.body if b_ else n_.orelse
+                if isinstance(v_, ast.Constant) and v_.value in (0, 1):
+                    gate_h.append((v_.value, n_))
+        elif isinstance(n_, ast.If):
+            b_ = _at_gate(n_.test)
+            if b_ is None:
+                continue
+            node_, val_ = n_, None
+            while True:
+                b_ = _at_gate(node_.test)
+                if b_ is None:
+                    break
+                if b_:
+                    val_ = _const01(node_.body)
+                    break
+                if len(node_.orelse) == 1 and isinstance(node_.orelse[0], ast.If):
+                    node_ = node_.orelse[0]
+                    continue
+                val_ = _const01(node_.orelse)
+                break
+            if val_ is not None:
+                gate_h.append((val_, n_))
+    for val_, n_ in gate_h[:1]:
+        chk.ob("R-CAVDP", c + "[gate at 0.025 g]", "a window whose peak is exactly 0.025 g qualifies (weight 1)", val_ == 1,
+               derived="weight %d at a peak of exactly 0.025 g" % val_, loc=r.fi.loc(n_), stmt=norm_stmt(n_.test))
     # the one-second series records the running total *after* the current window has been added (located design: a loop whose body updates an
     # accumulator X = X + ... / X += ... and appends X / stores X at the loop index; not located: nothing is claimed here)
     for lp_ in [n_ for n_ in ast.walk(r.fi.node) if isinstance(n_, ast.For)]:
